@@ -29,6 +29,7 @@ EscAlpha == <<"&", "<", ">", "\"", "'", "a", "EACUTE", ";", "#", "3">>
 SlashAlpha == <<"\\", "\"", "'", "a", "n", " ">>
 JsAlpha == <<"a", "Z", " ", "/", "<", "\"", "'", "\\", "r", "n", "0", "NL", "EACUTE", "EURO", "EMOJI", "FFFD", "-", ";">>
 UrlAlpha == <<"a", "7", "-", "_", ".", "~", " ", "/", "&", "=", "?", "%", "+", "EACUTE", "CJK", "EMOJI", "#", ":", "BAD", "'", "*", "(">>
+WordAlpha == <<"a", "B", "z", " ", "NL", "'", "-", "7", "EACUTE", "_">>
 TagAlpha == <<"<", ">", "/", "b", "i", "a", " ", "NL">>
 SpAlpha == <<"<", ">", " ", "NL", "a", "TAB">>
 
@@ -78,6 +79,14 @@ Init ==
                                    \/ vec = Vec("float", Fix(n), Nil, FilterRef("float", Fix(n), Nil))
             \/ \E q \in 1..Len(Nums) : \/ vec = Vec("integer", Nums[q], Nil, FilterRef("integer", Nums[q], Nil))
                                         \/ vec = Vec("float", Nums[q], Nil, FilterRef("float", Nums[q], Nil)))
+       [] Family = "words" -> (
+            \E w \in StrsUpTo(WordAlpha, MaxLen) :
+              LET t == S(Mk(WordAlpha, w)) IN
+              \/ vec = Vec("title", t, Nil, FilterRef("title", t, Nil))
+              \/ vec = Vec("phone2numeric", t, Nil, FilterRef("phone2numeric", t, Nil))
+              \/ vec = Vec("linebreaks", t, Nil, FilterRef("linebreaks", t, Nil))
+              \/ vec = Vec("wordcount", t, Nil, FilterRef("wordcount", t, Nil))
+              \/ vec = Vec("capfirst", t, Nil, FilterRef("capfirst", t, Nil)))
        [] Family = "strnum" -> (
             \* numbers that arrive as text (a quoted filter argument, a string variable): decimal, also with leading zeros
             \E q \in 1..Len(StrNums) :
